@@ -64,3 +64,136 @@ PROPS["C05"] = dict(
         res("res_twin_must_fail", "vacuity twin (must FAIL)", expect_fail=True, cost=1),
     ],
 )
+
+SORT = ["rustemo-compiler/src/table/mod.rs: LRTable::sort_terminals (body, sliced verbatim)"]
+LEX = ["rustemo/src/lexer.rs: StringLexer::next_tokens + TokenIterator::next (real crate, unsliced)"]
+LRSEL = ["rustemo/src/lr/parser.rs: LRParser::next_token (statement `let next_token = if D::longest_match() ..`, sliced verbatim)"]
+GLRSEL = ["rustemo/src/glr/parser.rs: GlrParser::find_lookaheads (block `if !tokens.is_empty() {..}`, sliced verbatim)"]
+
+
+def lexh(name, what, n, tiers=Q, **kw):
+    return h("e2", "sortlex::proofs::" + name, what,
+             "%d overlapping terminals, priorities 0..=99, kind regex or string of length 1..3, match lengths 1..4 (strings match their own length), most_specific on/off, unwind 8" % n,
+             SORT + LEX + (LRSEL if name.startswith("l") else GLRSEL if name.startswith("g") else []),
+             tiers=tiers, timeout=2400, mem_gb=10, cost=5, extra=NOMEM, stubbing=True, **kw)
+
+
+PROPS["C06"] = dict(
+    level="other",
+    explanation=(
+        "Bounded model checking (Kani/CBMC) of the lexical-disambiguation chain in one harness: the real body of "
+        "LRTable::sort_terminals (sliced) produces the (terminal, finish) try order, which is handed to the real, unsliced "
+        "StringLexer::next_tokens / TokenIterator of the runtime crate with arbitrary-prefix recognizers, whose tokens go "
+        "through the real selection code of LRParser::next_token / GlrParser::find_lookaheads (sliced). For every priority / "
+        "recognizer-kind / match-length assignment of 3 (quick) or 4 (thorough) overlapping terminals and every strategy "
+        "switch, the solver decides that the LR parser acts on exactly the token the documented order of strategies selects "
+        "and the GLR parser keeps exactly the surviving set."
+    ),
+    residual="that the GLR parser then follows each surviving token (head splitting in create_frontier); the regex engine itself (recognizers are arbitrary prefix matchers)",
+    assumptions=[
+        "recognizer model: for each terminal an arbitrary Option<length>; a string recognizer matches exactly its literal length or not at all; two string recognizers of equal literal length never both match (they would be the same literal) (environment stub for generated recognizers / the regex engine)",
+        "stand-ins on the compiler side: Grammar/Terminal/Recognizer/LRState structs with the mentioned fields; Vec -> fixed-capacity AVec; [T]::sort_by -> stable insertion sort calling the sliced comparator",
+        "stub: std::env::var_os -> None (log! macro)",
+    ],
+    harnesses=[
+        lexh("sort3", "sort order and finish flags = reference (3 terminals + STOP)", 3),
+        lexh("sort4", "sort order and finish flags = reference (4 terminals + STOP)", 4, tiers=T),
+        lexh("lr3_longest", "LR, longest match on", 3),
+        lexh("lr3_first", "LR, longest match off (grammar order)", 3),
+        lexh("lr4_longest", "LR, longest match on", 4, tiers=T),
+        lexh("lr4_first", "LR, longest match off", 4, tiers=T),
+        lexh("glr3_lm_go", "GLR, longest match + grammar order", 3, tiers=T),
+        lexh("glr3_lm", "GLR, longest match only", 3),
+        lexh("glr3_go", "GLR, grammar order only", 3, tiers=T),
+        lexh("glr3_none", "GLR, no optional strategy: all survivors kept", 3),
+        lexh("glr4_lm", "GLR, longest match only", 4, tiers=T),
+        lexh("glr4_none", "GLR, no optional strategy", 4, tiers=T),
+        lexh("lr3_longest_tail", "LR longest; a higher-priority group with a non-matching member must still stop lower-priority terminals", 3),
+        lexh("lr3_first_tail", "same, longest match off", 3, tiers=T),
+        lexh("glr3_lm_tail", "same, GLR longest", 3, tiers=T),
+        lexh("glr3_none_tail", "same, GLR no optional strategy", 3),
+        lexh("lex_twin_must_fail", "vacuity twin (must FAIL)", 3, expect_fail=True),
+    ],
+)
+
+# ---- E1 leaf harnesses -------------------------------------------------------------------
+F_POS = ["rustemo/src/input.rs: <str as Input>::position_after, Input::span_from (real crate)"]
+F_BYTES = ["rustemo/src/input.rs: <[u8] as Input>::position_after (real crate)"]
+F_SLICE = ["rustemo/src/input.rs: <str as Input>::slice (real crate)"]
+F_CTXSTR = ["rustemo/src/input.rs: <str as Input>::context_str (real crate)"]
+F_SKIP = ["rustemo/src/lexer.rs: StringLexer::next_tokens, StringLexer::skip (real crate)"]
+F_TOKIT = ["rustemo/src/lexer.rs: StringLexer::next_tokens, TokenIterator::next (real crate)"]
+F_TREEB = ["rustemo/src/lr/builder.rs: TreeBuilder::{shift_action, reduce_action, get_result} (real crate)"]
+F_SLICEB = ["rustemo/src/lr/builder.rs: SliceBuilder::{shift_action, reduce_action, get_result} (real crate)"]
+F_ERR = ["rustemo/src/error.rs: error_expected (real crate, via feature-gated wrapper)"]
+F_FOREST = ["rustemo/src/glr/gss.rs: Forest::{new, solutions, get_tree, iter, into_iter}, Tree::{children, find_tree_root}, SPPFTree::solutions, Parent::solutions (real crate)"]
+
+
+def e1(name, what, bounds, functions, tiers=Q, timeout=1500, mem_gb=8, cost=2, **kw):
+    return h("e1", name, what, bounds, functions, tiers=tiers, timeout=timeout, mem_gb=mem_gb, cost=cost, stubbing=True, **kw)
+
+
+E1 = dict(
+    pos4=e1("h_input::pos_after_law_4", "line/column law of position_after and span_from", "valid UTF-8 <= 4 bytes, any position", F_POS),
+    pos6=e1("h_input::pos_after_law_6", "line/column law of position_after and span_from", "valid UTF-8 <= 6 bytes, any position", F_POS, tiers=T),
+    pos8=e1("h_input::pos_after_law_8", "line/column law of position_after and span_from", "valid UTF-8 <= 8 bytes, any position", F_POS, tiers=T, cost=4),
+    abs4=e1("h_input::pos_absolute_4", "absolute line/column law from the start position; composition over concatenation", "valid UTF-8 <= 4 bytes, any cut", F_POS),
+    abs6=e1("h_input::pos_absolute_6", "absolute line/column law from the start position; composition over concatenation", "valid UTF-8 <= 6 bytes, any cut", F_POS, tiers=T),
+    bytes=e1("h_input::bytes_pos_after", "[u8] input positions", "<= 4 bytes", F_BYTES),
+    slice4=e1("h_input::str_slice_total_4", "<str as Input>::slice never panics on a non-empty range between two char-boundary positions", "valid UTF-8 <= 4 bytes", F_SLICE),
+    slice6=e1("h_input::str_slice_total_6", "<str as Input>::slice never panics on a non-empty range between two char-boundary positions", "valid UTF-8 <= 6 bytes", F_SLICE, tiers=T),
+    ws4=e1("h_lexer::ws_skip_4", "whitespace skipping: layout = maximal whitespace prefix, position advanced by it", "valid UTF-8 <= 4 bytes, any char-boundary start", F_SKIP + F_POS),
+    ws6=e1("h_lexer::ws_skip_6", "whitespace skipping: layout = maximal whitespace prefix, position advanced by it", "valid UTF-8 <= 6 bytes, any char-boundary start", F_SKIP + F_POS, tiers=T, cost=4),
+    tok4=e1("h_lexer::token_iter_4", "TokenIterator: token value = input[span], spans, order, finish flag", "valid UTF-8 <= 4 bytes, 3 expected terminals, arbitrary prefix matches and flags", F_TOKIT + F_POS),
+    tok6=e1("h_lexer::token_iter_6", "TokenIterator: token value = input[span], spans, order, finish flag", "valid UTF-8 <= 6 bytes, 3 expected terminals, arbitrary prefix matches and flags", F_TOKIT + F_POS, tiers=T, cost=4),
+    lextwin=e1("h_lexer::lexer_twin_must_fail", "vacuity twin (must FAIL)", "-", F_SKIP, expect_fail=True),
+    err1=e1("h_error::error_expected_span_1", "syntax error span = zero-width span at the lexing position", "positions <= 3, 1 expected kind", F_ERR, mem_gb=12),
+    err2=e1("h_error::error_expected_span_2", "syntax error span = zero-width span at the lexing position", "positions <= 3, 2 expected kinds", F_ERR, mem_gb=12, tiers=T),
+    sliceb=e1("h_builder::slice_builder_4", "SliceBuilder saves input[context.span()]", "valid UTF-8 <= 4 bytes", F_SLICEB),
+    tree00=e1("h_builder::tree_reduce_0_0", "empty reduction on an empty result stack", "-", F_TREEB),
+    buildtwin=e1("h_builder::builder_twin_must_fail", "vacuity twin (must FAIL)", "-", F_TREEB, expect_fail=True),
+)
+for (k, l, tiers) in [(1, 0, Q), (1, 1, Q), (2, 1, T), (2, 2, Q), (3, 0, Q), (3, 2, Q), (3, 3, T), (4, 2, T), (4, 4, T)]:
+    E1["tree%d%d" % (k, l)] = e1("h_builder::tree_reduce_%d_%d" % (k, l), "TreeBuilder stack discipline: %d nodes, reduce %d" % (k, l),
+                                 "symbolic kinds/spans/layouts, optional inner non-terminal", F_TREEB, tiers=tiers)
+PROPS["E1ALL"] = dict(level="other", explanation="all E1 harnesses (development only)", harnesses=list(E1.values()))
+
+
+# ---- E4: LR automaton over the real tables of the corpus, all token strings <= N ---------
+import gen_e4  # noqa: E402
+
+F_TABLE = [
+    "rustemo-compiler/src/table/mod.rs: LRTable::new (first_sets, closure, calc_states, merge_state, propagate_follows, calculate_reductions, sort_terminals) - executed natively on the corpus grammar, its result (dump hook) is the table the solver quantifies token strings over",
+    "rustemo-compiler/src/grammar/builder.rs: GrammarBuilder::try_from_file (same)",
+]
+
+
+def e4_harnesses():
+    hs = []
+    for c in gen_e4.E4_CORPUS:
+        for tag, tiers, n in (("q", Q, c["nq"]), ("t", T, c["nt"])):
+            hs.append(h("e4", "proofs::lr_%s_%s" % (c["name"], tag),
+                        "grammar %s %s: automaton over the real table accepts iff sentence (Earley reference), rejects at the first offending token, every accepted run is a valid derivation" % (c["file"], " ".join(c["args"])),
+                        "all token strings of length <= %d over the grammar's terminals" % n, F_TABLE, tiers=tiers, timeout=1800, mem_gb=10, cost=3, extra=NOMEM))
+    return hs
+
+
+PROPS["C01"] = dict(
+    level="other",
+    explanation=(
+        "For each grammar of a corpus of deterministic grammars (LALR, LALR-needing-lookahead, LR(1)-not-LALR needing state "
+        "splitting, nullable and sugar-expanded rules) the real compiler front end and LRTable::new are run on /repo's current "
+        "tree and the computed table is dumped (verif hook). Kani/CBMC then decides, for EVERY token string up to the stated "
+        "length (symbolic token array), that the LR automaton over that table accepts iff the string is a sentence "
+        "(independent Earley recognizer compiled into a lookup table), that every rejection happens at the first token that "
+        "cannot continue any sentence, and that every accepted run is a valid bottom-up derivation. That the real LR loop body "
+        "performs exactly the automaton's step is decided on the real source by the step harnesses (C02/C13/C15)."
+    ),
+    residual="grammars outside the corpus (the grammar axis is a finite corpus; table construction is executed concretely, not symbolically); token strings longer than the bound; lexing (token kinds are given, one token per position)",
+    assumptions=[
+        "the LR step relation is a harness-side model (40 lines); its agreement with the real loop body is a separate solver-decided obligation (step harnesses), not an assumption of this check's verdict on the tables",
+        "reference membership / first-error tables come from an independent Earley recognizer (vlib/gen_e4.py), cross-checked natively against the unchanged tree at generation time",
+        "context-aware lexing abstraction: a token is found iff its kind is expected in the current state",
+    ],
+    harnesses=e4_harnesses(),
+)
